@@ -20,7 +20,8 @@ TIMEOUTS = [0.02, 0.05, 0.1, 0.5]
 BUFFERS = [16, 24, 32, 64, 100, 120, 128, 248, 255, 256, 512]
 
 RELIABLE_FAULTS = ["req_loss", "rep_loss", "rep_delay", "rep_dup",
-                   "retryable_rc", "slow_machine", "partition"]
+                   "retryable_rc", "slow_machine", "partition",
+                   "transient_busy"]
 
 
 def rigcall(w, allowed, fn, *args, **kwargs):
@@ -91,6 +92,11 @@ class Ctl(object):
         self.w.sim.drain(0.05)
 
     def clean(self):
+        """No fault is active that could legitimately make an operation fail.
+        (Transient-busy-only configurations count as clean when a retry is
+        allowed: the busy spell is shorter than one time-out.)"""
+        if self.policy.active and self.policy.busy and self.n_tries < 2:
+            return False
         return not (self.policy.active and (
             any(self.policy.rates.values()) or self.policy.partitions))
 
